@@ -36,6 +36,12 @@ pub struct ProxyCtl {
     pub half_open: bool,
     /// everything forwarded: (virtual ms, direction, bytes as delivered)
     pub log: Vec<(u64, u8, Vec<u8>)>,
+    /// per direction: delays (ms) for the next writes, consumed one per write; when empty `delay_ms` applies
+    pub delay_plan: [VecDeque<u64>; 2],
+    /// every write of either endpoint: (ms written, ms delivered or u64::MAX, direction, bytes)
+    pub writes: Vec<(u64, u64, u8, Vec<u8>)>,
+    /// bytes the harness wants delivered now: (direction, bytes)
+    pub inject: Vec<(u8, Vec<u8>)>,
     pub bytes: [usize; 2],
     /// set by the proxy when the connection has ended
     pub closed: bool,
@@ -60,6 +66,16 @@ async fn proxy(mut m: VerifPeer, mut o: VerifPeer, ctl: Arc<Mutex<ProxyCtl>>, wa
                 queue[1].clear();
             }
         }
+        {
+            let mut c = ctl.lock().unwrap();
+            let inj = std::mem::take(&mut c.inject);
+            let t_ms = tokio::time::Instant::now().duration_since(start).as_millis() as u64;
+            for (dir, bytes) in inj {
+                c.log.push((t_ms, dir | 0x80, bytes.clone()));
+                let dst = if dir == 0 { &o } else { &m };
+                dst.send(&bytes);
+            }
+        }
         let next = [queue[0].front().map(|x| x.0), queue[1].front().map(|x| x.0)];
         let due = match (next[0], next[1]) {
             (Some(a), Some(b)) => Some(a.min(b)),
@@ -69,9 +85,12 @@ async fn proxy(mut m: VerifPeer, mut o: VerifPeer, ctl: Arc<Mutex<ProxyCtl>>, wa
         tokio::select! {
             x = m.from_lib.recv(), if m_open => match x {
                 Some((_, bytes)) => {
-                    let d = ctl.lock().unwrap().delay_ms[0];
-                    let due = (tokio::time::Instant::now() + Duration::from_millis(d)).max(last_due[0]);
+                    let mut c = ctl.lock().unwrap();
+                    let d = c.delay_plan[0].pop_front().unwrap_or(c.delay_ms[0]);
+                    let now = tokio::time::Instant::now();
+                    let due = (now + Duration::from_millis(d)).max(last_due[0]);
                     last_due[0] = due;
+                    c.writes.push((now.duration_since(start).as_millis() as u64, due.duration_since(start).as_millis() as u64, 0, bytes.clone()));
                     queue[0].push_back((due, bytes));
                 }
                 None => {
@@ -82,9 +101,12 @@ async fn proxy(mut m: VerifPeer, mut o: VerifPeer, ctl: Arc<Mutex<ProxyCtl>>, wa
             x = o.from_lib.recv() => match x {
                 Some((_, bytes)) => {
                     if m_open {
-                        let d = ctl.lock().unwrap().delay_ms[1];
-                        let due = (tokio::time::Instant::now() + Duration::from_millis(d)).max(last_due[1]);
+                        let mut c = ctl.lock().unwrap();
+                        let d = c.delay_plan[1].pop_front().unwrap_or(c.delay_ms[1]);
+                        let now = tokio::time::Instant::now();
+                        let due = (now + Duration::from_millis(d)).max(last_due[1]);
                         last_due[1] = due;
+                        c.writes.push((now.duration_since(start).as_millis() as u64, due.duration_since(start).as_millis() as u64, 1, bytes.clone()));
                         queue[1].push_back((due, bytes));
                     }
                 }
@@ -339,6 +361,23 @@ impl PairRig {
     pub fn set_delay(&mut self, dir: usize, ms: u64) {
         self.delay_ms[dir % 2] = ms;
         self.ctl.lock().unwrap().delay_ms[dir % 2] = ms;
+    }
+
+    /// delays for the next writes in a direction (one per write), then back to the constant delay
+    pub fn plan_delays(&mut self, dir: usize, plan: &[u64]) {
+        self.ctl.lock().unwrap().delay_plan[dir % 2] = plan.iter().cloned().collect();
+    }
+
+    /// deliver bytes to one endpoint as if the other had sent them (0 = towards the outstation, 1 = towards the master)
+    pub async fn inject(&mut self, dir: usize, bytes: Vec<u8>) {
+        self.ctl.lock().unwrap().inject.push(((dir % 2) as u8, bytes));
+        self.wake.notify_one();
+        self.settle().await;
+    }
+
+    /// every write of either endpoint on the current connection: (ms written, ms due for delivery, direction, bytes)
+    pub fn writes(&self) -> Vec<(u64, u64, u8, Vec<u8>)> {
+        self.ctl.lock().unwrap().writes.clone()
     }
 
     pub fn set_chunking(&mut self, dir: usize, pattern: Vec<u16>) {
